@@ -164,9 +164,14 @@ CLAIMS = {
                      "only table condition: no step arm ends in the Eof terminator, decided on both regenerated tables). "
                      "ONE EOF, LAST: whenever Tokenizer::end answers normally the newest token delivered is the EOF token "
                      "(C04_html_end_delivers_eof_last, C04_xml_end_delivers_eof_last: any machine, fuel and sink; EOF arms never read - "
-                     "eof_ok on the regenerated tables - so they answer Done only through the Eof terminator). That no EOF token is "
-                     "delivered BEFORE end() (step arms have no Eof terminator, but the emit sites of the interpreter are not yet "
-                     "covered by a frame lemma) stays with the single-EOF oracle of the harness. Tree builders, stack depth and "
+                     "eof_ok on the regenerated tables - so they answer Done only through the Eof terminator). EXACTLY ONE EOF "
+                     "(TokIR/SingleEof.v: a frame lemma for every primitive of the interpreter - get_char, bulk read, eat, every "
+                     "command, emit_current_tag, the character-reference sub-tokenizer - shows that only the Eof terminator changes "
+                     "the number of EOF tokens delivered): feed() never delivers one (C04_html/xml_feed_delivers_no_eof), an end() "
+                     "that returns delivers exactly one (C04_html/xml_end_delivers_exactly_one_eof), and the whole driver from a "
+                     "fresh tokenizer - any chunking, pauses, injected text, sink, fuel, start state - ends with exactly one "
+                     "(C04_html/xml_driver_exactly_one_eof). All four clauses of the property are thereby theorems about the "
+                     "tokenizer interpreters in reference semantics. Tree builders, stack depth and "
                      "time are covered by the harness only (panic/abort/hang watch, queue-empty and single-EOF oracles, deep nesting).",
                 note=TOK_NOTE, tech="reflective Coq checks (EOF rank, char-ref states) + Coq termination proof of the tokenizer interpreter with explicit fuel bound (potential function, rank check on the regenerated table) + totality oracle incl. pathological inputs"),
     "C08": dict(cat="proof", ref="DESIGN.md section 5 C08",
